@@ -18,6 +18,8 @@ let strs_of_field (f : string) : n list list =
 (* Unicode tables dumped from Go's unicode package by the harness *)
 let space_tbl : (int, unit) Hashtbl.t = Hashtbl.create 64
 let lower_tbl : (int, int) Hashtbl.t = Hashtbl.create 4096
+let letter_tbl : (int, unit) Hashtbl.t = Hashtbl.create 200000
+let digit_tbl : (int, unit) Hashtbl.t = Hashtbl.create 1024
 let load_unicode path =
   let ic = open_in path in
   (try while true do
@@ -25,10 +27,14 @@ let load_unicode path =
     match split ' ' l with
     | "space" :: rest -> List.iter (fun x -> Hashtbl.replace space_tbl (int_of_string x) ()) rest
     | "lower" :: a :: b :: _ -> Hashtbl.replace lower_tbl (int_of_string a) (int_of_string b)
+    | "letter" :: rest -> List.iter (fun x -> Hashtbl.replace letter_tbl (int_of_string x) ()) rest
+    | "digit" :: rest -> List.iter (fun x -> Hashtbl.replace digit_tbl (int_of_string x) ()) rest
     | _ -> ()
   done with End_of_file -> ());
   close_in ic
 let is_space (r : n) = Hashtbl.mem space_tbl (int_of_n r)
+let is_letter (r : n) = Hashtbl.mem letter_tbl (int_of_n r)
+let is_udigit (r : n) = Hashtbl.mem digit_tbl (int_of_n r)
 let to_lower (r : n) = match Hashtbl.find_opt lower_tbl (int_of_n r) with Some x -> n_of_int x | None -> r
 
 (* printers *)
@@ -66,6 +72,32 @@ let p_tok ctoks (t : token) =
   Buffer.add_string b ")"
 
 let parse_ok_all _ _ = true
+let parse_ok _ (s : n list) = match parse_code is_letter is_udigit s with Some _ -> true | None -> false
+
+let unop_s = function UPlus -> "+" | UMinus -> "-" | UNot -> "!" | UCaret -> "^" | UStar -> "*" | UAmp -> "&" | URecv -> "<-"
+let binop_s = function
+  | BMul -> "*" | BDiv -> "/" | BMod -> "%" | BShl -> "<<" | BShr -> ">>" | BAnd -> "&" | BAndNot -> "&^"
+  | BAdd -> "+" | BSub -> "-" | BOr -> "|" | BXor -> "^"
+  | BEq -> "==" | BNe -> "!=" | BLt -> "<" | BLe -> "<=" | BGt -> ">" | BGe -> ">=" | BLAnd -> "&&" | BLOr -> "||"
+let lk_s = function LNil -> "nil" | LInt -> "int" | LFloat -> "float" | LImag -> "imag" | LStr -> "str"
+let add = Buffer.add_string b
+let rec p_expr (e : expr) =
+  match e with
+  | ELit (k, t, l, c) -> add ("(lit " ^ lk_s k ^ " "); p_str t; add (Printf.sprintf " %d %d)" (int_of_n l) (int_of_n c))
+  | EName (s, l, c) -> add "(name "; p_str s; add (Printf.sprintf " %d %d)" (int_of_n l) (int_of_n c))
+  | EParen e -> add "(paren "; p_expr e; add ")"
+  | EUnary (op, e, _, _) -> add ("(un " ^ unop_s op ^ " "); p_expr e; add ")"
+  | EBin (op, x, y, _, _) -> add ("(bin " ^ binop_s op ^ " "); p_expr x; add " "; p_expr y; add ")"
+  | ECond (c, x, y) -> add "(cond "; p_expr c; add " "; p_expr x; add " "; p_expr y; add ")"
+  | EField (e, safe, nm) -> add "(field "; p_expr e; add (if safe then " safe " else " dot "); p_str nm; add ")"
+  | EIndex (e, i) -> add "(index "; p_expr e; add " "; p_expr i; add ")"
+  | ESlice (e, lo, hi) -> add "(slice "; p_expr e; add " "; p_opt lo; add " "; p_opt hi; add ")"
+  | ESlice3 (e, lo, hi, cp) -> add "(slice3 "; p_expr e; add " "; p_opt lo; add " "; p_expr hi; add " "; p_expr cp; add ")"
+  | ECall (f, args, ell, cm) ->
+    add "(call "; p_expr f; add " (";
+    List.iteri (fun i a -> if i > 0 then add " "; p_expr a) args;
+    add ")"; add (if ell then " ell" else " -"); add (if cm then " comma" else " -"); add ")"
+and p_opt = function None -> add "_" | Some e -> p_expr e
 
 let rec p_node ctoks (nd : node) =
   let Node (i, t, ch, e) = nd in
@@ -80,20 +112,24 @@ let run_case (line : string) =
   (match split ' ' line with
    | ["scan"; prefix; tags; src] ->
      let prefix = str_of_field prefix and tags = strs_of_field tags and src = str_of_field src in
-     let ctoks = attr_ctoks prefix parse_ok_all in
-     (match scan_html is_space to_lower tags prefix parse_ok_all src with
+     let ctoks = attr_ctoks prefix parse_ok in
+     (match scan_html is_space to_lower tags prefix parse_ok src with
       | Inl toks -> Buffer.add_string b "OK "; List.iter (p_tok ctoks) toks
       | Inr e -> Buffer.add_string b ("ERR " ^ serr_s e))
    | ["code"; l; c; src] ->
-     (match cscan parse_ok_all (n_of_int (int_of_string l), n_of_int (int_of_string c)) (str_of_field src) with
+     (match cscan parse_ok (n_of_int (int_of_string l), n_of_int (int_of_string c)) (str_of_field src) with
       | Inl toks -> Buffer.add_string b "OK "; List.iter p_ctok toks
       | Inr e -> Buffer.add_string b ("ERR " ^ cerr_s e))
    | ["tree"; prefix; tags; voids; src] ->
      let prefix = str_of_field prefix and tags = strs_of_field tags and voids = strs_of_field voids and src = str_of_field src in
-     let ctoks = attr_ctoks prefix parse_ok_all in
-     (match load is_space to_lower tags voids prefix parse_ok_all src with
+     let ctoks = attr_ctoks prefix parse_ok in
+     (match load is_space to_lower tags voids prefix parse_ok src with
       | Inl nd -> Buffer.add_string b "OK "; p_node ctoks nd
       | Inr e -> Buffer.add_string b ("ERR " ^ serr_s e))
+   | ["parse"; src] ->
+     (match parse_code is_letter is_udigit (str_of_field src) with
+      | Some e -> add "OK "; p_expr e
+      | None -> add "ERR")
    | _ -> Buffer.add_string b "BADCASE");
   print_string (Buffer.contents b); print_newline ()
 
